@@ -1,6 +1,6 @@
 """Human-written claim texts per property (what the check proves, what it trusts)."""
 
-HOOK_COMMITS = []
+HOOK_COMMITS = ['2cf6faf']
 
 NOTES = ('Exit codes of ./check: 0 all obligations discharged; 1 VIOLATION (a named obligation refuted); '
          '2 undecided (lost anchor / construct outside the accepted subset / solver limit) - never an alarm. '
@@ -31,6 +31,10 @@ CLAIMS = {
     'C08': {
         'text': 'Unbounded proof on the real bodies of FinalityTracker::{default, add_parent, mark_fast_finalized, mark_notarized, mark_finalized, handle_finalized_block, handle_implicitly_finalized (recursive), prune}: from any state satisfying the representation invariant, a slot is reported finalized exactly when the statuses justify it (fast-final mark on a slot not yet finalized; notar mark meeting a pending final mark; final mark meeting a notarized block) and with that block; the highest finalized slot never decreases; no operation changes the decision of a decided slot (only ImplicitlyFinalized(h) -> Finalized(h)); every slot listed as implicitly finalized / skipped was undecided before the call (so it is never reported twice) and is decided after; the ancestor walk decides the parent and every slot between (or stops at an already skipped slot); the watermark only advances over a contiguous decided prefix, is maximal, nothing at or above it is dropped and nothing below it is retained; operations below the watermark are no-ops; parent links point to earlier slots (the add_parent assertion is a precondition, C10).',
         'note': 'Assumed (listed in evidence): vstd BTreeMap specs; Slot/BlockId orders lawful; BTreeMap::split_off/retain and tuple clone/eq named through trusted wrappers (R8, R9); Entry API rewritten to get/insert (R5); the custom iterator future_slots rewritten to its definition (R4); the "consensus safety violation" assertions are treated as assumptions (they encode C01); slots stay below u64::MAX. Pool-level bounds checks (pool.rs add_cert/add_vote) not yet under contract.',
+    },
+    'C15': {
+        'text': 'Unbounded proof on the real bodies of MerkleTree::{derive_hash_root, derive_hash_root_last, check_hash_proof, check_hash_proof_last}: the derived root follows the index bits one per proof element; check_hash_proof is true exactly when the proof has at most 32 elements, the index lies within 2^len and the re-derived root equals the given root; the last-leaf variant additionally requires every right sibling on the path to be the canonical empty subtree.  Two machine-checked theorems then state the property itself against ANY complete hash tree with that root whose leaves are leaf hashes: a verifying proof has exactly the tree\'s height, the leaf is the index-th leaf, every proof element is the sibling on the path (so changing leaf, index - also beyond the width -, root, any element or the length fails), and for the last-leaf variant every leaf to the right of the index is the empty leaf (the slice count cannot be misreported).  Kani: a 33-element proof never verifies (complete); index beyond the width never verifies (bounded, proof length <= 3).',
+        'note': 'Assumed: SHA-256 with the three labels is injective and domain separated (hash_leaf / hash_pair uninterpreted + 3 axioms); EMPTY_ROOTS[k] is the canonical empty root (the repo test empty_roots recomputes it); generic erasure R6 (Root = Hash, Proof = Vec<Hash>; wrapper newtypes are projections); the enumerate() loop rewritten to an indexed while (R4).  Not covered: MerkleTree::new / create_proof (tree construction; Kani did not finish on SmallVec) - "every proof the tree creates verifies" is left to the repo tests.',
     },
     'C09': {
         'text': 'Threshold arithmetic used by certificate validation is exact for all u64 stakes. (Validation logic: being built.)',
